@@ -232,7 +232,14 @@ func RunPlan(t *testing.T, plan *Plan, tape *Tape, mk func(*Plan) Checker, keepL
 	w.dir = dir
 	defer os.RemoveAll(dir)
 	redisemu.SimResetGlobals()
-	func() {
+	// synctest.Test calls t.FailNow (Goexit) when the bubble's *T was marked
+	// failed - which the testing package does on its own whenever the race
+	// detector has reported something. It therefore runs on a goroutine of its
+	// own, so that a Goexit ends only that goroutine and not the worker loop.
+	done := make(chan any, 1)
+	go func() {
+		var escaped any
+		defer func() { done <- escaped }()
 		defer func() {
 			if r := recover(); r != nil {
 				msg := fmt.Sprint(r)
@@ -240,13 +247,16 @@ func RunPlan(t *testing.T, plan *Plan, tape *Tape, mk func(*Plan) Checker, keepL
 					w.stats.Leaked = true
 					return
 				}
-				panic(r)
+				escaped = r
 			}
 		}()
 		synctest.Test(t, func(t *testing.T) {
 			w.run(mk)
 		})
 	}()
+	if r := <-done; r != nil {
+		panic(r)
+	}
 	redisemu.SimInstall(nil)
 	w.fillResult()
 	return
@@ -1101,7 +1111,7 @@ func (w *World) harvest() {
 			tmp = tmp[:0]
 		}
 		for _, ch := range tmp {
-			c.recv = append(c.recv, ch.data...)
+			c.recv = noraceAppend(c.recv, ch.data)
 			c.bounds = append(c.bounds, bound{end: len(c.recv), step: ch.step})
 		}
 		for len(c.recv) > 0 && !c.malformed {
